@@ -33,11 +33,13 @@ def spd(rng, n):
 def gen(ctx, thorough):
     rng = ctx.rng
     specs = []
-    total = 1500 if thorough else 64
+    total = 400 if thorough else 64      # thorough trimmed: the certificate-checked exact factorisations are list-backed (slow for n > 8)
     for i in range(total):
         kind = KINDS[i % len(KINDS)] if i < 2 * len(KINDS) else rng.choice(KINDS)
         wiring = ["prec", "cov"][(i // len(KINDS)) % 2] if i < 2 * len(KINDS) else rng.choice(["prec", "cov"])
         n = rng.choice([2, 3, 3, 4, 5, 6, 8] + ([12, 20] if thorough else []))
+        if kind not in ("vec", "vec-tol", "len1", "row1", "veclen"):
+            n = min(n, 8)                    # matrix kinds: exact inverse / L D L^T in the interpreted driver
         if kind in ("vec", "vec-tol") and i % 9 == 4:
             n = rng.choice([75, 76, 80])            # sparse storage of the diagonal factor (dim > MIN_DIM_SPARSE)
         if kind == "vec":
